@@ -283,7 +283,9 @@ fn run_faults<K: KeyT, V: ValT>(a: &Args) {
                     (st.main_buckets > 1) as i64 + st.split as i64
                 }).sum();
                 LIVE_BASE.fetch_sub(live_now, std::sync::atomic::Ordering::Relaxed);
-                emit(&mut out, &json!({"op":"Reset","state":si,"hm":hm,"nkeys":nkeys,"prefix":prefix.len()}));
+                // the silently replayed prefix travels with the segment, so that a cut-out segment is a
+                // self-contained replay script
+                emit(&mut out, &json!({"op":"Reset","state":si,"hm":hm,"nkeys":nkeys,"prefix":prefix.len(),"prefix_ops":prefix}));
                 // objects leaked before this point (forgotten iterators in earlier segments / the prefix)
                 let snap = w.snapshot();
                 let mut held = std::collections::BTreeSet::new();
@@ -678,7 +680,36 @@ fn run_script<K: KeyT, V: ValT>(a: &Args) {
                 w = World::new(4, a.num("content-limit", 64) as usize);
                 rebase_live();
                 emit(&mut out, &op);
+                if let Some(pre) = op.get("prefix_ops").and_then(|x| x.as_array()) {
+                    // crash-point segment: rebuild the state silently, then say where we are
+                    w.silent = true;
+                    for o in pre {
+                        w.exec(o);
+                    }
+                    w.silent = false;
+                    rebase_live();
+                    let live_now: i64 = (1..w.slots.len()).filter(|&s| w.alive(s)).map(|s| {
+                        let st = w.vstate(s).unwrap();
+                        (st.main_buckets > 1) as i64 + st.split as i64
+                    }).sum();
+                    LIVE_BASE.fetch_sub(live_now, std::sync::atomic::Ordering::Relaxed);
+                    let snap = w.snapshot();
+                    let mut held = std::collections::BTreeSet::new();
+                    for sl in snap.as_array().unwrap() {
+                        for t in ["main", "old"] {
+                            if let Some(a) = sl.get(t).and_then(|x| x.as_array()) {
+                                for e in a {
+                                    held.insert(e[2].as_u64().unwrap_or(0) as u32);
+                                    held.insert(e[3].as_u64().unwrap_or(0) as u32);
+                                }
+                            }
+                        }
+                    }
+                    let leaked: Vec<u32> = live_ids().into_iter().filter(|i| !held.contains(i)).collect();
+                    emit(&mut out, &json!({"op":"Snap","st": snap,"leaked":leaked,"cost":{"live": live_tables()},"led":{"dd":[],"dead":[],"drop":[],"new":[]}}));
+                }
             }
+            "Snap" => continue,
             "EndRun" => {
                 let live = live_ids();
                 emit(&mut out, &json!({"op":"EndRun","live_ids": live, "live_allocs": live_tables()}));
@@ -686,7 +717,7 @@ fn run_script<K: KeyT, V: ValT>(a: &Args) {
             _ => {
                 // strip observation fields so that a recorded trace can be used as a script
                 let mut o = op.as_object().cloned().unwrap();
-                for k in ["res", "st", "cost", "led", "obs", "calls", "yield", "cyield", "hints", "tail", "kid", "vid", "vids", "ids", "objs", "unused", "big", "par", "visits", "toks", "order", "dbg", "mincap"] {
+                for k in ["res", "st", "cost", "led", "obs", "calls", "yield", "cyield", "hints", "tail", "kid", "vid", "vids", "ids", "objs", "unused", "big", "par", "visits", "toks", "order", "dbg", "mincap", "k_probe"] {
                     o.remove(k);
                 }
                 match w.resolve(&Value::Object(o)) {
